@@ -399,6 +399,9 @@ package reflect
 
 //@ const ghost $initp = Int
 //@ const ghost $didinit = Bool
+// $suberr (local to each activation): some nested decode call of this activation returned an error.
+// C05: such an error is never swallowed - the activation itself then returns an error (c05_propagate).
+//@ const ghost $suberr = Bool
 //@ const ghost $fid = Int
 //@ const ghost $mp = Int
 //@ func (d *tDecoder) Decode(b []byte, base unsafe.Pointer, sd *structDesc, maxdepth int) (n int, err error)
@@ -407,6 +410,11 @@ package reflect
 //@   requires d != nil && spanInv(&d.s) && wfSD(sd) && base != nil && 0 <= maxdepth && len(b) <= MAXIN
 //@   requires c15_budget: maxdepth >= maxDepthLimit + 2 - 2*lvl
 //@   decreases maxdepth
+//@   entry ghost $suberr = false
+//@   after decodeType ghost $suberr = $suberr || res_err != nil
+//@   after skipValue ghost $suberr = $suberr || res_err != nil
+//@   ensures c05_propagate: $suberr ==> err != nil
+//@   loop 1 invariant c05_noerr: !$suberr
 //@   call decodeFixedSizeTypes ghost td = t
 //@   call skipValue ghost fld = f
 //@   call skipValue ghost wt = tp
@@ -495,6 +503,12 @@ package reflect
 //@   ensures c10_override: err == nil && t.T == tSTRING && maxdepth != 0 ==> ld64(p+8) == old(strLen(M, b.ptr))
 //@   entry ghost $didinit = false
 //@   after InitDefault ghost $didinit = true
+//@   entry ghost $suberr = false
+//@   after decodeType ghost $suberr = $suberr || res_err != nil
+//@   after Decode ghost $suberr = $suberr || res_err != nil
+//@   ensures c05_propagate: $suberr ==> err != nil
+//@   loop 0 invariant c05_noerr: !$suberr
+//@   loop 1 invariant c05_noerr: !$suberr
 //@   ensures c10_inited: err == nil && t.T == tSTRUCT && maxdepth != 0 && t.Sd.hasInitFunc ==> $didinit
 //@   ensures c01_bytes: err == nil && t.T == tSTRING && maxdepth != 0 && (b.ptr + len(b) <= p || p + slotSize(t) <= b.ptr) ==> forall k Int :: {M[ld64(p) + k]} 0 <= k && k < old(strLen(M, b.ptr)) ==> M[ld64(p) + k] == old(M[b.ptr + 4 + k])
 //@   requires t.FixedSize > 0 ==> len(b) >= t.FixedSize
